@@ -131,7 +131,7 @@ func veiled(r *core.Run, anchor *ssa.Function, s effSite) string {
 				case *ssa.Parameter:
 					// a callback parameter: fine when every caller passes a literal; treated as resolvable
 				default:
-					if _, isSig := v.Type().Underlying().(*types.Signature); isSig {
+					if _, isSig := v.Type().Underlying().(*types.Signature); isSig && !isGlobalFuncVar(v) {
 						return "a call of a function value (" + r.P.Pos(c.Pos()) + ") taken from a variable, field or slice"
 					}
 				}
@@ -184,13 +184,22 @@ func veiled(r *core.Run, anchor *ssa.Function, s effSite) string {
 				}
 			case *ssa.Builtin, *ssa.MakeClosure, *ssa.Parameter:
 			default:
-				if _, isSig := cv.Type().Underlying().(*types.Signature); isSig {
+				if _, isSig := cv.Type().Underlying().(*types.Signature); isSig && !isGlobalFuncVar(cv) {
 					return "the branch at " + r.P.Pos(iff.Pos()) + " is decided by a call of a function value taken from a variable, field or slice"
 				}
 			}
 		}
 	}
 	return ""
+}
+
+// isGlobalFuncVar: a package-level variable of function type (sdkerrors.Wrapf and the like): in effect a static callee.
+func isGlobalFuncVar(v ssa.Value) bool {
+	if u, ok := v.(*ssa.UnOp); ok {
+		_, isG := u.X.(*ssa.Global)
+		return isG
+	}
+	return false
 }
 
 // selectEffects finds the effect instructions of a rule inside fn.
